@@ -554,5 +554,41 @@ def main():
     return rep.emit()
 
 
+def _untuple(x):
+    return x
+
+
+def replay(p, path):
+    """re-execute a recorded history against /repo"""
+    if 'ops' not in p or 'backend' not in p:
+        print('replay: %s records a broken proof/correspondence (%s), nothing to execute' % (path, p.get('broken')))
+        return 1
+
+    def fix(o):
+        # JSON turned tuples into lists: keys that are lists are tuples again; update payloads are pair lists
+        def key(k):
+            return tuple(key(x) for x in k) if isinstance(k, list) else k
+        o = list(o)
+        if o[0] in ('set', 'get', 'delete', 'contains', 'pop', 'getd', 'popd', 'setdefault', 'bad'):
+            o[1] = key(o[1])
+        elif o[0] in ('popkeys', 'popkeysd'):
+            o[1] = [key(k) for k in o[1]]
+        elif o[0] == 'update':
+            o[1] = [(key(k), v) for k, v in o[1]]
+        return tuple(o)
+    cfg = {c[0]: c for c in configs()}[p['backend']]
+    sc = Scratch()
+    try:
+        probs, n = run_ops(p['backend'], cfg[1], [fix(o) for o in p['ops']], sc)
+    finally:
+        sc.close()
+    print(json.dumps(probs[:5], indent=1, default=repr))
+    if probs:
+        print('VIOLATION property=C03 replay=%s' % path)
+        return 1
+    print('replay: the recorded case no longer fails')
+    return 0
+
+
 if __name__ == '__main__':
     sys.exit(main())
